@@ -51,11 +51,13 @@ def symbolize(x):
     if isinstance(x, np.datetime64):
         if np.isnat(x):
             return STime(0, TRUE)
-        return STime(int(x.astype("datetime64[s]").astype("int64")))
+        from .values import as_stime
+        return as_stime(x)
     if isinstance(x, np.timedelta64):
         if np.isnat(x):
             return SDelta(0, TRUE)
-        return SDelta(int(x.astype("timedelta64[s]").astype("int64")))
+        from .values import as_sdelta
+        return as_sdelta(x)
     if isinstance(x, str):
         return x
     if isinstance(x, dict):
